@@ -131,6 +131,18 @@ impl<D: StorageData> VStorage<D> {
     }
 }
 
+/// crate-internal access for hooks that live next to the code they expose
+/// (`DbValue::verif_store_db_value` / `verif_load_db_value` in `db/db_value.rs`)
+impl<D: StorageData> VStorage<D> {
+    pub(crate) fn inner(&self) -> &Storage<D> {
+        &self.0
+    }
+
+    pub(crate) fn inner_mut(&mut self) -> &mut Storage<D> {
+        &mut self.0
+    }
+}
+
 /// Wrappers over the crate-private `MultiMapStorage<u64, u64, MemoryStorage>` and
 /// `DbIndexedMap<String, DbId, MemoryStorage>` with slot dumps, and the stable hash functions
 /// (verification group `coll`, properties C10 / C19).
